@@ -18,11 +18,12 @@ import (
 )
 
 type ConcCase struct {
-	Specs     []EncSpec `json:"specs"`
-	Procs     int       `json:"gomaxprocs"`
-	Scale     bool      `json:"scale"`      // each goroutine also scales its result
-	ColdStart bool      `json:"cold_start"` // run in a fresh race-instrumented process instead of this one
-	Repeat    int       `json:"repeat"`     // in-process: how many times each goroutine repeats its call
+	Specs      []EncSpec `json:"specs"`
+	Procs      int       `json:"gomaxprocs"`
+	Scale      bool      `json:"scale"`       // each goroutine also scales its result
+	ColdStart  bool      `json:"cold_start"`  // run in a fresh race-instrumented process instead of this one
+	Repeat     int       `json:"repeat"`      // in-process: how many times each goroutine repeats its call
+	SharedRead bool      `json:"shared_read"` // in-process: all goroutines read (fingerprint) ONE barcode made from Specs[0]
 }
 
 // workFingerprint: what one goroutine computes.
@@ -57,6 +58,7 @@ func sequentialRef(s EncSpec, scale bool) string {
 }
 
 func checkC16(t TB, c ConcCase) {
+	noteCase("C16", "concurrency", c)
 	const P, K = "C16", "concurrency"
 	n := len(c.Specs)
 	want := make([]string, n)
@@ -94,6 +96,10 @@ func checkC16(t TB, c ConcCase) {
 	}
 	old := runtime.GOMAXPROCS(c.Procs)
 	defer runtime.GOMAXPROCS(old)
+	if c.SharedRead {
+		checkSharedRead(t, c)
+		return
+	}
 	base := runtime.NumGoroutine()
 	got := make([][]string, n)
 	start := make(chan struct{})
@@ -117,8 +123,8 @@ func checkC16(t TB, c ConcCase) {
 	go func() { wg.Wait(); close(done) }()
 	select {
 	case <-done:
-	case <-time.After(180 * time.Second):
-		failf(t, P, K, c, "deadlock: %d concurrent calls did not return within 180 s", n)
+	case <-time.After(90 * time.Second):
+		failf(t, P, K, c, "deadlock: %d concurrent calls did not return within 90 s (a burst normally takes a second or two)", n)
 	}
 	for i := range c.Specs {
 		for r, fp := range got[i] {
@@ -140,6 +146,64 @@ func checkC16(t TB, c ConcCase) {
 	}
 }
 
+// checkSharedRead: one barcode (optionally scaled, i.e. a fresh wrapper object nobody has read yet) is read by all
+// goroutines at once; every reader must see exactly the pixels and accessors a lone reader sees.
+func checkSharedRead(t TB, c ConcCase) {
+	const P, K = "C16", "concurrency"
+	s := c.Specs[0]
+	mk := func() barcode.Barcode {
+		bc, err, pv := encodeSpec(s)
+		if pv != nil || err != nil || nilBarcode(bc) {
+			return nil
+		}
+		if c.Scale {
+			var sc barcode.Barcode
+			var serr error
+			if spv := try(func() { sc, serr = barcode.Scale(bc, 2*bc.Bounds().Dx()+3, 2*bc.Bounds().Dy()+1) }); spv != nil || serr != nil {
+				return nil
+			}
+			return sc
+		}
+		return bc
+	}
+	lone := mk()
+	if lone == nil {
+		return
+	}
+	want := enc.Fingerprint(lone, nil, nil)
+	shared := mk()
+	n := len(c.Specs)
+	got := make([]string, n)
+	start := make(chan struct{})
+	var wg sync.WaitGroup
+	for i := 0; i < n; i++ {
+		wg.Add(1)
+		go func(i int) {
+			defer wg.Done()
+			<-start
+			var fp string
+			pv := try(func() { fp = enc.Fingerprint(shared, nil, nil) })
+			if pv != nil {
+				fp = fmt.Sprint(pv)
+			}
+			got[i] = fp
+		}(i)
+	}
+	close(start)
+	done := make(chan struct{})
+	go func() { wg.Wait(); close(done) }()
+	select {
+	case <-done:
+	case <-time.After(180 * time.Second):
+		failf(t, P, K, c, "deadlock: %d concurrent readers of one barcode did not return within 180 s", n)
+	}
+	for i := range got {
+		if got[i] != want {
+			failf(t, P, K, c, "reader %d of %d concurrent readers of one %s barcode (scaled=%v) saw different pixels/accessors than a lone reader: %s", i, n, s.Label(), c.Scale, tail(got[i], 200))
+		}
+	}
+}
+
 func tail(s string, n int) string {
 	if len(s) > n {
 		return "…" + s[len(s)-n:]
@@ -155,6 +219,17 @@ func init() {
 			checkC16(t, ConcCase{Specs: append(append([]EncSpec{}, rsPool[:16]...), errorPathSpecs...), Procs: 8, Scale: true, ColdStart: cold, Repeat: 2})
 		}
 	})
+}
+
+// one or two ordinary calls per entry-point family
+var familyFirstCalls = []EncSpec{
+	{Fam: "qr", Content: BStr("HELLO WORLD"), A: 1, B: 2}, {Fam: "qr", Content: BStr("0123456789"), A: 0, B: 1}, {Fam: "qr", Content: BStr("hello"), A: 3, B: 0},
+	{Fam: "datamatrix", Content: BStr("Data Matrix 12")}, {Fam: "aztec", Content: BStr("Aztec Code 123"), A: 33}, {Fam: "aztec", Content: BStr("binary \x80\x81 data"), A: 23, B: 9},
+	{Fam: "aztec", Content: BStr("TWENTY-THREE LAYERS"), A: 10, B: 23}, {Fam: "pdf417", Content: BStr("PDF417 sample, 123456789012345"), A: 2},
+	{Fam: "code128", Content: BStr("Code-128 ab\x0112")}, {Fam: "code128nc", Content: BStr("NoCheck34")}, {Fam: "code39", Content: BStr("CODE 39"), F1: true},
+	{Fam: "code39", Content: BStr("full Ascii!"), F2: true}, {Fam: "code93", Content: BStr("CODE93"), F1: true}, {Fam: "code93", Content: BStr("full~93"), F1: true, F2: true},
+	{Fam: "codabar", Content: BStr("A12-3$B")}, {Fam: "ean", Content: BStr("1234567")}, {Fam: "ean", Content: BStr("590123412345")},
+	{Fam: "2of5", Content: BStr("12345")}, {Fam: "itf", Content: BStr("123456")},
 }
 
 // calls whose error paths start producer goroutines inside the QR encoder
@@ -250,9 +325,66 @@ func init() {
 	})
 }
 
+// TestC16Bursts: bursts of 8 x NumCPU goroutines that all call the SAME encoder family at once (contention inside
+// one package: semaphores, pools, pipelines), several bursts per family, with a deadlock watchdog per burst.
+func TestC16Bursts(t *testing.T) {
+	st := NewStats("C16", "bursts")
+	defer st.Flush()
+	n := 8 * runtime.NumCPU()
+	if n < 64 {
+		n = 64
+	}
+	bursts := 3
+	if thorough() {
+		bursts = 12
+	}
+	byFam := map[string][]EncSpec{}
+	for _, s := range familyFirstCalls {
+		byFam[s.Fam] = append(byFam[s.Fam], s)
+	}
+	byFam["qr"] = append(byFam["qr"], errorPathSpecs...)
+	byFam["qr"] = append(byFam["qr"], rsPool[:10]...)
+	for _, fam := range allFamilies {
+		pool := byFam[fam]
+		if len(pool) == 0 {
+			continue
+		}
+		for b := 0; b < bursts; b++ {
+			c := ConcCase{Procs: runtime.NumCPU(), Repeat: 2, Scale: b%2 == 1}
+			for i := 0; i < n; i++ {
+				c.Specs = append(c.Specs, pool[(i+b)%len(pool)])
+			}
+			checkC16(t, c)
+			st.Eval()
+			st.NonTrivial(H("burst", fam, b))
+			st.Class("burst " + fam)
+		}
+		// many concurrent readers of ONE freshly made barcode of this family (raw and scaled)
+		for b, sp := range pool {
+			if b >= 2 {
+				break
+			}
+			for _, scaled := range []bool{false, true} {
+				c := ConcCase{Procs: runtime.NumCPU(), SharedRead: true, Scale: scaled, Specs: make([]EncSpec, 32)}
+				for i := range c.Specs {
+					c.Specs[i] = sp
+				}
+				checkC16(t, c)
+				st.Eval()
+				st.NonTrivial(H("shared-read", fam, b, scaled))
+				st.Class("concurrent readers of one barcode")
+			}
+		}
+	}
+	st.Sample("burst", map[string]any{"goroutines": n, "family": "qr", "bursts": bursts})
+}
+
 func genConcCase(t *rapid.T) ConcCase {
 	c := ConcCase{Procs: rapid.SampledFrom([]int{1, 2, 4, 16}).Draw(t, "procs"), Scale: rapid.Bool().Draw(t, "scale"),
 		ColdStart: rapid.IntRange(0, 3).Draw(t, "cold") == 0, Repeat: rapid.IntRange(1, 3).Draw(t, "repeat")}
+	if !c.ColdStart && rapid.IntRange(0, 4).Draw(t, "shared") == 0 {
+		c.SharedRead = true
+	}
 	n := rapid.SampledFrom([]int{2, 3, 4, 8, 16, 32, 64}).Draw(t, "goroutines")
 	kind := rapid.IntRange(0, 3).Draw(t, "wkind")
 	for i := 0; i < n; i++ {
@@ -276,6 +408,13 @@ func genConcCase(t *rapid.T) ConcCase {
 			c.Specs = append(c.Specs, s)
 		}
 	}
+	if c.SharedRead {
+		// the barcode all goroutines read: any family, plain or coloured
+		c.Specs[0] = genEncSpec(t, 0)
+		if rapid.Bool().Draw(t, "sharedcol") {
+			c.Specs[0].Scheme = genScheme(t)
+		}
+	}
 	return c
 }
 
@@ -286,6 +425,9 @@ func TestC16Rapid(t *testing.T) {
 		checkC16(rt, c)
 		st.Class(fmt.Sprintf("goroutines %d", len(c.Specs)))
 		st.Class(fmt.Sprintf("GOMAXPROCS %d", c.Procs))
+		if c.SharedRead {
+			st.Class("concurrent readers of one barcode")
+		}
 		if c.ColdStart {
 			st.Class("cold start in a fresh race-instrumented process")
 		} else {
@@ -328,6 +470,18 @@ func TestC16ColdStart(t *testing.T) {
 			}
 			cases = append(cases, ConcCase{Specs: third, Procs: p, ColdStart: true})
 			cases = append(cases, ConcCase{Specs: append(append([]EncSpec{}, errorPathSpecs...), specs[:8]...), Procs: p, ColdStart: true})
+			// every family's first calls of the process overlap (lazily built tables of any package)
+			var fam []EncSpec
+			for k := 0; k < 4; k++ {
+				for _, b := range familyFirstCalls {
+					x := b
+					if k%2 == 1 && len(x.Content) > 1 && x.Fam != "ean" && x.Fam != "itf" && x.Fam != "codabar" {
+						x.Content = x.Content[:len(x.Content)-1]
+					}
+					fam = append(fam, x)
+				}
+			}
+			cases = append(cases, ConcCase{Specs: fam, Procs: p, ColdStart: true})
 		}
 	}
 	parallelFor(len(cases), 4, func(i int) {
